@@ -86,7 +86,12 @@ def gen_case(rng, obs, tier, nveh=None):
             a, b = rng.sample(vs, 2)
             tops.append(["move", a, 0])
             tops.append(["move", b, 0])
-            tops.append(["update2", a, rng.choice(["red", "red", "rsd"]), None, b, rng.choice(["rsd", "rsd", "red"]), None])
+            # listed in either order: predecessor first (the second sees the first through updated_tours as its
+            # predecessor) or successor first (the second sees the first as its successor) — seeded C09e needs the latter
+            if rng.random() < 0.5:
+                tops.append(["update2", a, rng.choice(["red", "red", "rsd"]), None, b, rng.choice(["rsd", "rsd", "red"]), None])
+            else:
+                tops.append(["update2", b, rng.choice(["rsd", "rsd", "red"]), None, a, rng.choice(["red", "red", "rsd"]), None])
             for k in (3, 6):
                 tops[-1][k] = rng.choice(obs.edepots) if tops[-1][k - 1] == "red" else rng.choice(sds + obs.sdepots)
         elif kind == "update2":
